@@ -15,7 +15,7 @@ the theorems assume them.  `matmul`, `reshape`, `stack`, `concat` can fail on
 well-formed library calls (shape mismatch) and therefore return `Except`.
 -/
 
-namespace GT
+namespace GT.Act
 
 /-- all multi-indices of a shape in row-major (C) order -/
 def allIx : List Nat → List (List Nat)
@@ -223,4 +223,4 @@ def matmul [Add α] [Mul α] [Zero α] (a b : ND α) : Except String (ND α) :=
   | _, _ => .error "matmul-1d-operand-not-modelled"
 
 end ND
-end GT
+end GT.Act
